@@ -32,9 +32,9 @@
 (*                                                                         *)
 (* Abstract values.  Body / attribute values 1..N: ODD values have caller  *)
 (* storage (strings, arrays), EVEN values are scalars.  Identity: span s   *)
-(* has trace id s, span id s, flags s % 2 (span 0 = a span with an invalid *)
+(* has trace id s, span id s, flags s % 4 (span 0 = a span with an invalid *)
 (* context, all zero); explicit identity i is trace/span id 10 + i, flags  *)
-(* 1 + i % 2.  Field value 0 = never supplied (the statement says nothing  *)
+(* 1 + i % 3 (flag value 0 = byte 00, 1..3 = arbitrary bytes).  Field value 0 = never supplied (the statement says nothing  *)
 (* about it: not compared), for attributes 0 = key absent (compared).      *)
 (***************************************************************************)
 EXTENDS Naturals, Sequences, FiniteSets, TLC, Json
@@ -109,9 +109,9 @@ IsArg(a) ==
     [] OTHER -> FALSE
 
 SpanTid(s) == s
-SpanFl(s)  == s % 2
+SpanFl(s)  == s % 4            \* abstract flag values 0..3: 0 = the zero byte, 1..3 = three arbitrary bytes
 ExplId(i)  == 10 + i
-ExplFl(i)  == 1 + (i % 2)
+ExplFl(i)  == 1 + (i % 3)
 ActiveSpan(t) == IF spans[t] = <<>> THEN 0 ELSE spans[t][Len(spans[t])].s
 
 F(v, dead) == [v |-> v, dead |-> dead]          \* v = 0: never supplied / key absent
